@@ -237,6 +237,11 @@ Cte == /\ q.k \in {"select", "order", "setop"} /\ steps < MaxSteps /\ DistinctNa
              IN Step([k |-> "with", name |-> nm, def |-> q, body |-> body], "Cte")
 
 JoinKinds == {"inner", "left", "right", "full", "cross"}
+\* every alias / table name a FROM term introduces
+RECURSIVE AliasesF(_)
+AliasesF(f) == CASE f.k = "tab" -> { IF f.as = "" THEN f.t ELSE f.as }
+                 [] f.k = "sub" -> { f.as }
+                 [] f.k = "join" -> AliasesF(f.l) \cup AliasesF(f.r)
 Join == /\ Plain(q) /\ q.from.k \in {"tab", "sub", "join"} /\ steps < MaxSteps
         /\ LET L == HdrF(q.from, NoCte) IN
            \E tbl \in Pick({"t", "u"}) : \E al \in Pick({"j", "k"}) :
@@ -250,7 +255,7 @@ Join == /\ Plain(q) /\ q.from.k \in {"tab", "sub", "join"} /\ steps < MaxSteps
                   common == CommonNames(L, R)
                   \* USING / NATURAL need each shared name to be unique on both sides
                   usable == \A c \in Range(common) : Cardinality({ i \in 1..Len(L) : L[i].n = c }) = 1
-                  AliasFree == al \notin { L[i].q : i \in 1..Len(L) }
+                  AliasFree == al \notin AliasesF(q.from)
               IN /\ AliasFree
                  /\ \E kind \in Pick(JoinKinds) :
                        \/ /\ kind # "cross"
